@@ -368,12 +368,36 @@ def rule_e(R, ctx, rid="C17.e"):
              "the walker climbs to the parent's item without testing `current.parent == self.root`: guards %s" % v.guard_descs(cs.bb)[-3:], cs.loc())
 
 
+def rule_g(R, ctx, rid="C17.g"):
+    Y = ctx.yrs
+    R.rule(rid, "R-GUARD head-of-list selector: Branch::first (behind XmlFragment::first_child) returns an item only under a liveness "
+                "test of that item — countability is not a substitute: a tombstone keeps its content and its COUNTABLE flag until it "
+                "is garbage collected")
+    fn = Y.fn("yrs::branch::Branch::first")
+    v = FnView(fn)
+    helpers = positive_helpers(Y)
+
+    def vis_lit(l):
+        for p in NEG_TESTS:
+            if lit_call(l, p, False):
+                return True
+        t = simp(l.term)
+        return t[0] == "call" and t[1] in helpers and l.polarity is True
+    somes = [(i, st) for i, j, st in fn.stmts() if st["dst"] == 0 and "agg" in st["rv"] and st["rv"]["agg"].get("variant") == "Some"]
+    R.floor(rid, "Some(item) returns in Branch::first", len(somes), 1)
+    for k, (i, st) in enumerate(somes):
+        ok = v.necessary_any(i, vis_lit)
+        R.ob(rid, fn, "returns#%d" % k, ok, "the returned item is live" if ok else
+             "Branch::first returns an item with no liveness test (guards: %s)" % v.guard_descs(i)[:3], "%s:%s" % (fn.file, st["line"]))
+
+
 def check(ctx, R):
     R.run("C17.a", rule_a, ctx)
     R.run("C17.b", rule_b, ctx)
     R.run("C17.c", rule_c, ctx)
     R.run("C17.d", rule_d, ctx)
     R.run("C17.e", rule_e, ctx)
+    R.run("C17.g", rule_g, ctx)
     from . import preds
     R.run("C17.p", lambda R, c: preds.rule(R, c, "C17.p", ["is_visible", "map_contains_key", "seen", "flags_check"]), ctx)
     return {}
